@@ -172,15 +172,29 @@ def _system(pydrex, name):
     return getattr(pydrex.geometry.LatticeSystem, name)
 
 
+class IndexRaised(Exception):
+    pass
+
+
 def _M(pydrex, A, system):
-    with np.errstate(all="ignore"):
-        return float(pydrex.diagnostics.misorientation_index(np.ascontiguousarray(A), system))
+    try:
+        with np.errstate(all="ignore"):
+            return float(pydrex.diagnostics.misorientation_index(np.ascontiguousarray(A), system))
+    except AssertionError:
+        raise
+    except Exception as e:
+        raise IndexRaised(f"{type(e).__name__}: {str(e)[:150]}") from e
 
 
 def check_case(ctx, case):
     pydrex = bootstrap.import_pydrex()
-    return {"relations": _relations, "theory": _theory, "uniform": _uniform, "single": _single,
-            "rhombohedral_call": _rhombo, "pool": _pool}[case["kind"]](ctx, pydrex, case)
+    try:
+        return {"relations": _relations, "theory": _theory, "uniform": _uniform, "single": _single,
+                "rhombohedral_call": _rhombo, "pool": _pool}[case["kind"]](ctx, pydrex, case)
+    except IndexRaised as e:
+        ctx.check("misorientation_index_returns", False, case, key=f"index_raises/{case.get('system')}", exc=str(e))
+    except AssertionError as e:
+        ctx.check("misorientation_index_returns", False, case, key=f"index_raises/AssertionError/{case.get('system')}", exc="AssertionError")
 
 
 def _classify(ctx, pydrex, sub, ok, case, name, system, textures, values, kkey, **obs):
